@@ -57,8 +57,10 @@ LawClauses(r) ==
     \* fit, delta attribute overwritten, deep copy): the delta in force is f_delta, whatever the object holds
     <<"FreeDeltaHistory",
         ~r.fixed /\ Interior(r.dq) =>
-            /\ FreeHistories \subseteq {r.fhist[i].name : i \in 1..Len(r.fhist)}
-            /\ \E i \in 1..Len(r.fhist) : r.fhist[i].name \in HugeConstructed
+            /\ (r.n <= 200 => r.hfull)          \* hfull: the huge-start histories were run (quick: n <= 200)
+            /\ (FreeHistories \ (IF r.hfull THEN {} ELSE {"after_runaway_fit"}))
+                  \subseteq {r.fhist[i].name : i \in 1..Len(r.fhist)}
+            /\ (r.hfull => \E i \in 1..Len(r.fhist) : r.fhist[i].name \in HugeConstructed)
             /\ \A i \in 1..Len(r.fhist) :
                  LET v == r.fhist[i] IN
                    /\ Small(v.g) /\ DeltaClose(v.dd, r.dq) /\ AbClose(v.abl, r.dq)
